@@ -301,4 +301,258 @@ def unescape : Str → Str
 termination_by s => s.length
 decreasing_by all_goals simp_wf <;> omega
 
+/-! ## VTK: the file as a whole
+
+`vtk.save` writes text lines (XML declaration, `VTKFile`, `ImageData`, `Piece`, `CellData`, one
+`DataArray` per element, the closing tags, `<AppendedData encoding="raw">`), the marker `_`, the
+raw blocks, and the closing text.  Integers are printed in decimal; the spacing values are printed
+by Python's `str` and stay opaque tokens here; the origin is the literal `0.0 0.0 0.0`
+(`f"{origin[1]} {origin[1]} 0.0"` with `origin = 0.0, 0.0`); `byte_order` is the machine's. -/
+
+def digitChar (d : Nat) : Char := Char.ofNat (48 + d)
+
+/-- `str(n)` for a natural number -/
+def natStr (n : Nat) : Str :=
+  if _ : n < 10 then [digitChar n] else natStr (n / 10) ++ [digitChar (n % 10)]
+termination_by n
+decreasing_by omega
+
+def digitVal (c : Char) : Option Nat :=
+  if 48 ≤ c.toNat ∧ c.toNat ≤ 57 then some (c.toNat - 48) else none
+
+def parseNatAux (acc : Nat) : Str → Option Nat
+  | [] => some acc
+  | c :: r => match digitVal c with
+    | some d => parseNatAux (acc * 10 + d) r
+    | none => none
+
+/-- a non-empty string of decimal digits -/
+def parseNat (s : Str) : Option Nat := if s = [] then none else parseNatAux 0 s
+
+/-- one element of a structured image: its name and its values -/
+structure Field (α : Type) where
+  name : Str
+  get : Nat → Nat → Nat → α
+
+/-- a structured image of shape `(n0, n1, n2)` (`n2 = 1` for a 2-D image raised to 3-D) -/
+structure Image (α : Type) where
+  n0 : Nat
+  n1 : Nat
+  n2 : Nat
+  fields : List (Field α)
+
+def Image.vol (img : Image α) (f : Field α) : Vol α := { n0 := img.n0, n1 := img.n1, n2 := img.n2, get := f.get }
+
+/-- ` key="value"` -/
+def attr (k v : Str) : Str := ' ' :: k ++ '=' :: '"' :: v ++ ['"']
+
+/-- `f"0 {nx} 0 {ny} 0 {nz}"` -/
+def extentStr (nx ny nz : Nat) : Str :=
+  '0' :: ' ' :: (natStr nx ++ ' ' :: '0' :: ' ' :: (natStr ny ++ ' ' :: '0' :: ' ' :: natStr nz))
+
+def attrsText (attrs : List (Str × Str)) : Str := attrs.flatMap fun p => attr p.1 p.2
+
+/-- `<name key="value" ...>` (closer `>`) or `<name .../>` (closer `/>`) -/
+def tagLine (name : Str) (attrs : List (Str × Str)) (closer : Str) : Str := '<' :: (name ++ (attrsText attrs ++ closer))
+
+def arrayLine (name : Str) (offset : Nat) : Str :=
+  tagLine "DataArray".toList
+    [("Name".toList, escapeMech name), ("type".toList, "Float64".toList), ("format".toList, "appended".toList),
+     ("offset".toList, natStr offset)] ['/', '>']
+
+/-- the text lines of the header, in order -/
+def vtkHeadLines (endian : Str) (spacing : Str × Str × Str) (nx ny nz : Nat) (names : List Str) (offsets : List Nat) :
+    List Str :=
+  [ "<?xml version=\"1.0\"?>".toList,
+    tagLine "VTKFile".toList [("type".toList, "ImageData".toList), ("version".toList, "1.0".toList),
+      ("byte_order".toList, endian), ("header_type".toList, "UInt64".toList)] ['>'],
+    tagLine "ImageData".toList [("WholeExtent".toList, extentStr nx ny nz), ("Origin".toList, "0.0 0.0 0.0".toList),
+      ("Spacing".toList, spacing.1 ++ ' ' :: (spacing.2.1 ++ ' ' :: spacing.2.2))] ['>'],
+    tagLine "Piece".toList [("Extent".toList, extentStr nx ny nz)] ['>'],
+    tagLine "CellData".toList [("Scalars".toList, escapeMech (names.headD []))] ['>'] ]
+  ++ ((List.zip names offsets).map (fun p => arrayLine p.1 p.2)
+  ++ [ "</CellData>".toList, "</Piece>".toList, "</ImageData>".toList,
+       tagLine "AppendedData".toList [("encoding".toList, "raw".toList)] ['>'] ])
+
+/-- the file: header text up to and including the marker `_`, the appended 8-byte words, the closing text -/
+structure VtkFile (α : Type) where
+  head : Str
+  body : List (Word α)
+  tail : Str
+
+/-- `vtk.save(path, data, spacing)`; `none`: no element (`data.dtype.names[0]` raises) -/
+def vtkRender (endian : Str) (spacing : Str × Str × Str) (img : Image α) : Option (VtkFile α) :=
+  match img.fields with
+  | [] => none
+  | f0 :: _ =>
+    let w := swap01 (flip0 (img.vol f0))                        -- nx, ny, nz = data.shape
+    let blocks := img.fields.map fun f => vtkBlock (img.vol f)  -- data[name].ravel("F")
+    let offsets := offsetsFrom 0 (blocks.map List.length)        -- offset += size * itemsize + 8
+    some { head := (vtkHeadLines endian spacing w.n0 w.n1 w.n2 (img.fields.map (·.name)) offsets).flatMap (· ++ ['\n']) ++ ['_'],
+           body := appended blocks,
+           tail := "</AppendedData>\n</VTKFile>".toList }
+
+/-! ### a reader of the header: the fields a VTK reader needs
+
+The reader takes the header line by line (one tag per line, attributes ` key="value"` separated by
+single spaces, the five predefined entities decoded in values): the subset of XML `vtk.save` writes. -/
+
+inductive Tag where
+  | decl
+  | opening (name : Str) (attrs : List (Str × Str))
+  | empty (name : Str) (attrs : List (Str × Str))
+  | closing (name : Str)
+  deriving DecidableEq
+
+inductive Scan where
+  | start
+  | key (acc : Str)
+  | quote (k : Str)
+  | val (k acc : Str)
+
+/-- the attributes of a tag and what follows them -/
+def scanAttrs : Scan → Str → Option (List (Str × Str) × Str)
+  | .start, [] => some ([], [])
+  | .start, c :: r => if c = ' ' then scanAttrs (.key []) r else some ([], c :: r)
+  | .key _, [] => none
+  | .key acc, c :: r => if c = '=' then scanAttrs (.quote acc) r else scanAttrs (.key (acc ++ [c])) r
+  | .quote _, [] => none
+  | .quote k, c :: r => if c = '"' then scanAttrs (.val k []) r else none
+  | .val _ _, [] => none
+  | .val k acc, c :: r =>
+    if c = '"' then
+      match scanAttrs .start r with
+      | some (as, e) => some ((k, unescape acc) :: as, e)
+      | none => none
+    else scanAttrs (.val k (acc ++ [c])) r
+
+def isNameChar (c : Char) : Bool := c ≠ ' ' && c ≠ '>' && c ≠ '/'
+
+def parseTag : Str → Option Tag
+  | [] => none
+  | c :: r =>
+    if c ≠ '<' then none
+    else match r with
+      | [] => none
+      | d :: r' =>
+        if d = '?' then some .decl
+        else if d = '/' then (if r'.getLast? = some '>' then some (.closing r'.dropLast) else none)
+        else
+          match scanAttrs .start ((d :: r').dropWhile isNameChar) with
+          | some (as, e) =>
+            if e = ['>'] then some (.opening ((d :: r').takeWhile isNameChar) as)
+            else if e = ['/', '>'] then some (.empty ((d :: r').takeWhile isNameChar) as)
+            else none
+          | none => none
+
+def lookup (k : Str) : List (Str × Str) → Option Str
+  | [] => none
+  | (k', v) :: r => if k' = k then some v else lookup k r
+
+def mapOpt {β γ : Type} (f : β → Option γ) : List β → Option (List γ)
+  | [] => some []
+  | x :: xs => match f x, mapOpt f xs with
+    | some y, some ys => some (y :: ys)
+    | _, _ => none
+
+/-- `"0 3 0 2 0 1"` → `[0, 3, 0, 2, 0, 1]` -/
+def parseNats (s : Str) : Option (List Nat) := mapOpt parseNat (splitOn ' ' s)
+
+structure ArrayMeta where
+  name : Str
+  type : Str
+  format : Str
+  offset : Nat
+  deriving DecidableEq
+
+structure VtkMeta where
+  fileType : Str
+  version : Str
+  byteOrder : Str
+  headerType : Str
+  whole : List Nat
+  origin : List Str
+  spacing : List Str
+  piece : List Nat
+  scalars : Str
+  arrays : List ArrayMeta
+  encoding : Str
+  deriving DecidableEq
+
+def arrayOf : Tag → Option ArrayMeta
+  | .empty n as =>
+    if n = "DataArray".toList then
+      match lookup "Name".toList as, lookup "type".toList as, lookup "format".toList as,
+            (lookup "offset".toList as).bind parseNat with
+      | some nm, some ty, some fo, some off => some { name := nm, type := ty, format := fo, offset := off }
+      | _, _, _, _ => none
+    else none
+  | _ => none
+
+/-- the leading `DataArray` lines and the lines after them -/
+def spanArrays : List Str → List ArrayMeta × List Str
+  | [] => ([], [])
+  | l :: ls =>
+    match (parseTag l).bind arrayOf with
+    | some a => ((a :: (spanArrays ls).1), (spanArrays ls).2)
+    | none => ([], l :: ls)
+
+def openAttrs (name : String) : Option Tag → Option (List (Str × Str))
+  | some (.opening n as) => if n = name.toList then some as else none
+  | _ => none
+
+/-- reads the header text (up to and including the marker `_`) -/
+def vtkParse (head : Str) : Option VtkMeta :=
+  match splitOn '\n' head with
+  | l0 :: l1 :: l2 :: l3 :: l4 :: rest =>
+    match parseTag l0, openAttrs "VTKFile" (parseTag l1), openAttrs "ImageData" (parseTag l2),
+          openAttrs "Piece" (parseTag l3), openAttrs "CellData" (parseTag l4) with
+    | some .decl, some a1, some a2, some a3, some a4 =>
+      match (spanArrays rest).2 with
+      | [c0, c1, c2, ap, m] =>
+        if parseTag c0 = some (.closing "CellData".toList) ∧ parseTag c1 = some (.closing "Piece".toList)
+            ∧ parseTag c2 = some (.closing "ImageData".toList) ∧ m = ['_'] then
+          match lookup "type".toList a1, lookup "version".toList a1, lookup "byte_order".toList a1,
+                lookup "header_type".toList a1, (lookup "WholeExtent".toList a2).bind parseNats,
+                lookup "Origin".toList a2, lookup "Spacing".toList a2, (lookup "Extent".toList a3).bind parseNats,
+                lookup "Scalars".toList a4, (openAttrs "AppendedData" (parseTag ap)).bind (lookup "encoding".toList) with
+          | some ft, some ve, some bo, some ht, some wh, some org, some sp, some pe, some sc, some enc =>
+            some { fileType := ft, version := ve, byteOrder := bo, headerType := ht, whole := wh,
+                   origin := splitOn ' ' org, spacing := splitOn ' ' sp, piece := pe, scalars := sc,
+                   arrays := (spanArrays rest).1, encoding := enc }
+          | _, _, _, _, _, _, _, _, _, _ => none
+        else none
+      | _ => none
+    | _, _, _, _, _ => none
+  | _ => none
+
+/-- what a reader must find in the header of the file written for `img`: `nx` = columns, `ny` = rows -/
+def vtkMetaSpec (endian : Str) (spacing : Str × Str × Str) (img : Image α) : VtkMeta :=
+  { fileType := "ImageData".toList, version := "1.0".toList, byteOrder := endian, headerType := "UInt64".toList,
+    whole := [0, img.n1, 0, img.n0, 0, img.n2],
+    origin := ["0.0".toList, "0.0".toList, "0.0".toList],
+    spacing := [spacing.1, spacing.2.1, spacing.2.2],
+    piece := [0, img.n1, 0, img.n0, 0, img.n2],
+    scalars := (img.fields.map (·.name)).headD [],
+    arrays := (List.zip (img.fields.map (·.name)) (offsetsFrom 0 (img.fields.map fun _ => img.n1 * img.n0 * img.n2))).map
+      fun p => { name := p.1, type := "Float64".toList, format := "appended".toList, offset := p.2 },
+    encoding := "raw".toList }
+
+/-- decidable form of the hypothesis `HeadOk` of the header theorems -/
+def headOkB (endian : Str) (spacing : Str × Str × Str) (names : List Str) : Bool :=
+  endian.all (fun c => c ≠ '"' && c ≠ '&' && c ≠ '\n') &&
+  [spacing.1, spacing.2.1, spacing.2.2].all (fun t => t.all fun c => c ≠ '"' && c ≠ '&' && c ≠ '\n' && c ≠ ' ') &&
+  names.all (fun n => !n.contains '\n')
+
+/-- what a reader does with a declared offset: the byte count found there and the values after it -/
+def readBlock (body : List (Word α)) (offset : Nat) : Option (Nat × List α) :=
+  if offset % 8 ≠ 0 then none
+  else match body[offset / 8]? with
+    | some (.len n) =>
+      let ws := (body.drop (offset / 8 + 1)).take (n / 8)
+      if ws.length = n / 8 ∧ n % 8 = 0 then
+        mapOpt (fun w => match w with | .val a => some a | .len _ => none) ws |>.map fun vs => (n, vs)
+      else none
+    | _ => none
+
 end Pew.Export
